@@ -322,6 +322,20 @@ static void run_case(Case const& c)
   {
     if (!f) break;
     time_t secs = static_cast<time_t>(ns / TEN9);
+    if (pi.uses_epoch && c.local)
+    {
+      // the property's own exclusion: %s only where libc's %s is meaningful. libc prints mktime(tm); at a local time that
+      // occurs twice without a change of tm_isdst (a zone moving its standard offset back, e.g. Libya 2012-11-10) that is
+      // not the instant. Such instants are not given to the formatter for patterns that use %s.
+      tm probe{};
+      localtime_r(&secs, &probe);
+      if (mktime(&probe) != secs)
+      {
+        ++g_stats["skipped_libc_epoch_not_the_instant"];
+        std::cout << "# skipped " << ns << ": mktime(localtime(t)) != t in " << c.zone << ", libc's %s is not the instant here\n";
+        continue;
+      }
+    }
     ZInfo zi;
     if (c.local) zi = zinfo_at(secs);
     else
